@@ -249,3 +249,17 @@ Definition freq_response (ns sp sq bd b0n b1n : Z) : option (list (Z * Z * Z)) :
 (* dft(x): nk = ns if complex input else np.ceil((ns + 1) / 2) *)
 Definition dft_nk (ns : Z) (is_complex : bool) : Z :=
   if is_complex then ns else cdiv (ns + 1) 2.
+
+(* ------------------------------------------------------------------ *)
+(* dtype promotion in convolve.  Each operand is zero padded IN ITS OWN dtype
+   (zeros(..., dtype=x.dtype) for x, dtype=w.dtype for w): neither operand is
+   converted to the other's dtype, so every sample enters the transform with its
+   exact value (integers and float32 embed exactly into the carrier R of the
+   theorems).  np.fft.rfft transforms float32 data in single precision and
+   everything else (float64, every integer type) in double; the product of the two
+   half spectra, hence the result, has the wider precision of the two. *)
+Inductive dtype := F32 | F64 | IntT.
+Definition fft_prec (d : dtype) : dtype := match d with F32 => F32 | _ => F64 end.
+Definition conv_result_dtype (dx dw : dtype) : dtype :=
+  match fft_prec dx, fft_prec dw with F32, F32 => F32 | _, _ => F64 end.
+
